@@ -65,16 +65,22 @@ def run(ck):
         ck.ob("C18-R2", "table:%s" % kind, not probs and len(r) >= 2, pr.loc, pr, "; ".join(probs[:3]) or "%d literals agree" % len(r))
 
     # ---------------- R3 ----------------
-    lams = [l for l in prog.lambdas_in(pr)]
-    raise_l = [l for l in lams if any(e["k"] == "throw" for e in l.events())]
-    ck.require(len(raise_l) == 1, "raise lambda not found in MediaType::parseRaw")
-    th = [e for e in raise_l[0].events("throw")]
-    ok = all("HttpError" in (e.get("type") or "") and lib.refs_enumerator(e, "Pistache::Http::Code::Unsupported_Media_Type") for e in th) and cfg.always_throws(raise_l[0])
-    ck.ob("C18-R3", "raise-lambda/415", ok, raise_l[0].loc, raise_l[0], "throws HttpError(Unsupported_Media_Type) on every path")
-    bodies = [pr] + [l for l in lams if l is not raise_l[0]]
-    other = [e for g in bodies for e in g.events("throw")]
-    calls = [e for g in bodies for e in g.calls(lambda e: (e.get("callee") or "") == raise_l[0].name)]
-    ck.ob("C18-R3", "parseRaw/failures-go-through-raise", not other and len(calls) >= 1, pr.loc, pr, "%d failure sites call raise(); %d throw directly" % (len(calls), len(other)))
+    # every way parseRaw reports a failure -- a throw in the routine, in one of its lambdas (the `raise` helper) or in a file-local helper
+    # it was split into -- is HttpError(Unsupported_Media_Type); a lambda that exists to throw throws on every path
+    preg = lib.region(prog, pr, within=lambda g_: g_.file == pr.file and not g_.cls)
+    th_all = [(g, e) for g in preg for e in g.events("throw")]
+    ck.require(th_all, "no throw found in MediaType::parseRaw and its helpers")
+    for g, e in th_all:
+        is415 = "HttpError" in (e.get("type") or "") and lib.refs_enumerator(e, "Pistache::Http::Code::Unsupported_Media_Type")
+        ck.ob("C18-R3", "%s/throw-is-415" % ("raise-lambda" if g.is_lambda else g.base.rsplit("::", 1)[-1]), bool(is415), e.loc, g,
+              "throws HttpError(Unsupported_Media_Type)" if is415 else
+              "`%s`: text that is not a media type is rejected with something else than an unsupported-media-type error" % (e.get("t") or "")[:80])
+    raisers = [g for g in preg if g.is_lambda and any(True for _ in g.events("throw"))]
+    for g in raisers:
+        ck.ob("C18-R3", "raise-lambda/always-throws", cfg.always_throws(g), g.loc, g, "the failure helper throws on every path")
+    calls = [e for g in preg for e in g.calls(lambda e: any(h.id == r_.id for r_ in raisers for h in prog.resolve_call(e)))]
+    direct = [e for g, e in th_all if not g.is_lambda]
+    ck.ob("C18-R3", "parseRaw/failure-sites", len(calls) + len(direct) >= 5, pr.loc, pr, "%d failure sites call the throwing helper; %d throw directly" % (len(calls), len(direct)))
 
     # ---------------- R4 ----------------
     for f in [x for x in prog.by_base.get("Pistache::match_string", []) if len(x.params) >= 4]:
